@@ -291,6 +291,32 @@ func runCase(run *evid.Run, idx int) *caseResult {
 				res.pushes++
 				c.invariant(c.model, c.model.RevList(b), "git lfs push origin "+b)
 			}
+		case k < 85 && len(c.g.Branches) > 1:
+			// several refs in one `git lfs push` (they usually share unpushed history)
+			kinds["lfs-push-multi"] = true
+			perm := c.r.Perm(len(c.g.Branches))
+			n := 2 + c.r.Intn(2)
+			if n > len(perm) {
+				n = len(perm)
+			}
+			var refs []string
+			for _, i := range perm[:n] {
+				refs = append(refs, c.g.Branches[i])
+			}
+			var pr sbx.Result
+			if c.r.Intn(3) == 0 {
+				pr = c.env.Run(sbx.RunOpt{Dir: c.g.Dir, Stdin: strings.NewReader(strings.Join(refs, "\n") + "\n")}, "git", "lfs", "push", "--stdin", "origin")
+				c.res.steps = append(c.res.steps, stepLog{Step: "lfs-push-multi-stdin", Args: refs, Code: pr.Code, Note: sbx.Trunc(pr.Stderr, 300)})
+				if pr.GoCrash() {
+					c.viol("go-panic", "git lfs push --stdin crashed: "+sbx.Trunc(pr.Stderr, 1500))
+				}
+			} else {
+				pr = c.git("lfs-push-multi", append([]string{"lfs", "push", "origin"}, refs...)...)
+			}
+			if pr.OK() {
+				res.pushes++
+				c.invariant(c.model, c.model.RevList(refs...), "git lfs push origin "+strings.Join(refs, " "))
+			}
 		case k < 88:
 			kinds["lfs-push-all"] = true
 			if c.git("lfs-push-all", "lfs", "push", "--all", "origin").OK() {
